@@ -17,7 +17,10 @@ ROUTES = {
                 ("https://www.youtube.com/user/", "/videos"), ("https://www.youtube.com/c", ""), ("https://www.youtube.com/", ""),
                 ("https://www.youtube.com/#", ""), ("https://www.youtube.com/watch?v=abcdefghij", ""), ("https://www.youtube.com/signin?next=%2Fwatch%3Fv%3D", ""),
                 ("http://youtube.com/v/", ""), ("https://www.youtube.com/@", ""),
-                ("https://www.youtube.com/c/", "atch"), ("https://www.youtube.com/@", "ATCH"), ("https://www.youtube.com/", "atch/"), ("https://www.youtube.com/", "eed")],
+                ("https://www.youtube.com/c/", "atch"), ("https://www.youtube.com/@", "ATCH"), ("https://www.youtube.com/", "atch/"), ("https://www.youtube.com/", "eed")]
+               # a handle / custom name that is also a route word (last letter symbolic)
+               + [("https://www.youtube.com/@" + w[:-1], "") for w in ("shorts", "channel", "user", "embed", "playlist", "results", "live")]
+               + [("https://www.youtube.com/c/" + w[:-1], "/videos") for w in ("shorts", "channel", "user", "embed")],
     "twitter": [("https://twitter.com/", ""), ("https://twitter.com/i", ""), ("https://twitter.com/i/lists", ""), ("https://x.com/a/status", ""),
                 ("https://twitter.com/#!", ""), ("https://twitter.com/#!/i", ""), ("https://twitter.com/", "/status/1"), ("twitter.com/home", "")],
     "instagram": [("https://www.instagram.com/", ""), ("https://www.instagram.com/p", ""), ("https://www.instagram.com/p/", "/x"), ("https://www.instagram.com/reel/", ""),
